@@ -4,11 +4,11 @@ N_THOROUGH = 30000
 MODEL_SHOW = "model_run"
 DISAGREE_IS_VIOLATION = True   # observables are exactly what the property fixes
 HARNESS_TIMEOUT = 900
-RULE = ("fixed: the chat2 login sequence (bind + routing key on the front, forward, back-end set/push); later-push-wins across two back-sessions incl. the "
+RULE = ("fixed: pipelined scripts (set, push not awaited, set, [acks], push; re-routing inside a script; queries inside a script, on a live and on a removed connection); the chat2 login sequence (bind + routing key on the front, forward, back-end set/push); later-push-wins across two back-sessions incl. the "
         "re-sent NewData; routing and bound id following pushed keys; pushes / queries / dumps for a removed connection with a second live connection "
         "as frame witness; a local unpushed value shadowing the queried one; value shapes (2^53-1, nested lists, null). random: 1-3 connections, 1-4 "
         "back-session handles living in chat-1 / chat-2 / room-1, 4-80 sequential operations (connect, remove, front set/bind/get/dump, forward, "
-        "back new/set/bind/get/dump/push/query) over reserved key _ID (strings only), the routing key (instance names, unknown names, \"\", non-strings, null) "
+        "back new/set/bind/get/dump/push/query, and PIPELINED SCRIPTS on one back-session: 1-6 set / push / query steps run in one turn of the owning service, nothing awaited in between, all callbacks collected afterwards) over reserved key _ID (strings only), the routing key (instance names, unknown names, \"\", non-strings, null) "
         "and 3 user keys with ints, floats, strings, booleans, null, lists. Non-trivial = at least one map, value or forwarded envelope was observed; "
         "distinct = distinct op lists.")
 TRUSTED_BASE = [
@@ -17,7 +17,7 @@ TRUSTED_BASE = [
     "encoding/json is an oracle: values are abstract, the JSON round trip is the Section variable rt with hypothesis rt (rt v) = rt v (used by C10_set_push_query only); the concrete instance used for correspondence (Corr.crt: ints come back as floats, recursively in lists) is proved idempotent (C10_concrete_rt_idempotent)",
     "route functions are a Section variable (arbitrary function of the session map); Go map iteration order is unobservable (maps are sorted association lists; dumps are compared sorted by key)",
     "Go harness harness/e2e + harness/c10 (front-local handlers calling FrontSession.Set/Bind/Get/ToJson, real BackSession objects created with NewBackSession inside chat-1/chat-2/room-1 and driven from their service context, forwarded requests reporting the BackSession ProcessForwardMsg built from the envelope; connection ids reported as connection tokens), bin/check.py term printer",
-    "asynchrony is not part of this model: operations are issued one at a time, each acknowledged (callback / response) before the next; ordering between concurrent pushes is C03's subject",
+    "asynchrony: driver operations are issued one at a time and acknowledged before the next, EXCEPT inside OBackScript, whose steps run without yielding the service goroutine so that every acknowledgement is handled after the last step (the interleaving in which an acknowledgement is handled BETWEEN two steps of one handler invocation cannot occur: a service is one goroutine); pushes of different back-ends racing each other are C03's subject",
 ]
 ASSUMPTIONS = [
     "guard on reserved keys: _ID is only bound/pushed as a string, _NetId and _ServerId are never written by handlers (FrontSession.GetID / GetNetId and BackSession.FromJson type-assert and would panic)",
